@@ -565,6 +565,11 @@ func warm(kind string) {
 			_ = rapid.StringMatching(`[a-z]+\d*`).Example(i)
 			_ = rapid.SliceOfBytesMatching(`(?i)ab|cd`).Example(i)
 		}
+	case "classes": // case-sensitive character classes whose printed form is that of common case-insensitive ones
+		for i := 0; i < 3; i++ {
+			_ = rapid.StringMatching(`[0-9]+x\d[A-Fa-f]`).Example(i)
+			_ = rapid.SliceOfBytesMatching(`[A-Fa-f][0-9]\d`).Example(i)
+		}
 	case "labels":
 		_ = rapid.Int().String()
 		_ = rapid.SliceOf(rapid.Int()).String()
